@@ -14,16 +14,14 @@ Inductive outcome (R : Type) : Type := ORet (r : R) | OErr.
 Arguments ORet {R} r. Arguments OErr {R}.
 
 (* ------------------------------------------------------------------------------------------------------------ *)
-(* numpy.rint / Python round(): nearest integer, ties to the even one.  Pure integer arithmetic on n/d. *)
-Definition rint_nd (n d : Z) : Z :=
-  let f := n / d in
-  let r2 := 2 * (n mod d) in
-  match r2 ?= d with
+(* numpy.rint / Python round(): nearest integer, ties to the even one. *)
+Definition rint (q : Q) : Z :=
+  let f := Qfloor q in
+  match (q - inject_Z f ?= 1 # 2)%Q with
   | Lt => f
   | Gt => f + 1
   | Eq => if Z.even f then f else f + 1
   end.
-Definition rint (q : Q) : Z := rint_nd (Qnum q) (Zpos (Qden q)).
 
 (* ------------------------------------------------------------------------------------------------------------ *)
 (* voltage_to_uint16 *)
